@@ -24,7 +24,7 @@ cfg("mut_q", "Lens_f22", "Kinds_c2", 3, 3, emit=False, hist="none", comment="qui
 cfg("mutlife_q", "Lens_f22", "Kinds_c2", 1, 1, life=True, connected=False, emit=False, hist="none", comment="quick: base of the lifetime spec-mutant runs")
 cfg("sim", "Lens_sim", "Kinds_sim", 8, 8, opset="FlatOps", life=True, retains=3, connected=False, emptyop=True, hist="ops", sample=True, relafter=3, huge=True, comment="-simulate: deep trees (<=8 operations over <=4 leaves of length <=5, every kind, flatten SPI), retain/release interleaved; emitted")
 # thorough
-cfg("gen_t23", "Lens_2x3", "Kinds_c2", 3, 3, comment="thorough: <=3 operations over <=2 leaves of length <=3 (second may be empty); emitted")
+cfg("gen_t23", "Lens_t23", "Kinds_c2", 3, 3, comment="thorough: every operation tree of <=3 operations over a leaf of length 3 and a leaf of length 0..3; emitted")
 cfg("gen_t3", "Lens_f212", "Kinds_cdf3", 3, 3, huge=True, comment="thorough: <=3 operations over 3 leaves (lengths 2,1,2; custom/DEFAULT/FREE); emitted")
 cfg("gen_t4", "Lens_f2", "Kinds_c1", 4, 4, comment="thorough: every operation tree of <=4 operations (depth <=4; 4- and 8-record composites) over one leaf of length 2; emitted")
 cfg("life_t", "Lens_f212", "Kinds_cdf3", 2, 2, life=True, retains=0, connected=True, comment="thorough: all interleavings of release (all release orders) with <=2 connected operations over 3 leaves (custom/DEFAULT/FREE); emitted")
